@@ -27,6 +27,7 @@ type SQLStmt struct {
 	OrderBy  bool
 	Limit    bool
 	Where    string
+	From     string // source table of INSERT ... SELECT / first FROM of a SELECT
 	Unres    bool // contains an unresolved hole in a structural position
 	ArgsOf   ssa.CallInstruction
 }
@@ -608,6 +609,9 @@ func parseSQL(text string) *SQLStmt {
 		if i := find("TABLE"); i >= 0 {
 			st.Table = after(i + 1)
 		}
+	}
+	if i := find("FROM"); i >= 0 {
+		st.From = after(i + 1)
 	}
 	st.OrderBy = strings.Contains(U, "ORDER BY")
 	st.Limit = strings.Contains(U, " LIMIT ")
